@@ -691,11 +691,13 @@ func (obj *SparseInt16Matrix) JointIterator(b ConstMatrix) MatrixJointIterator {
 }
 func (obj *SparseInt16Matrix) ITERATOR() *SparseInt16MatrixIterator {
   r := SparseInt16MatrixIterator{*obj.values.ITERATOR(), obj}
+  r.skipOutside()
   return &r
 }
 func (obj *SparseInt16Matrix) ITERATOR_FROM(i, j int) *SparseInt16MatrixIterator {
   k := obj.index(i, j)
   r := SparseInt16MatrixIterator{*obj.values.ITERATOR_FROM(k), obj}
+  r.skipOutside()
   return &r
 }
 func (obj *SparseInt16Matrix) JOINT_ITERATOR(b ConstMatrix) *SparseInt16MatrixJointIterator {
@@ -716,6 +718,21 @@ type SparseInt16MatrixIterator struct {
 }
 func (obj *SparseInt16MatrixIterator) Index() (int, int) {
   return obj.m.ij(obj.SparseInt16VectorIterator.Index())
+}
+func (obj *SparseInt16MatrixIterator) Next() {
+  obj.SparseInt16VectorIterator.Next()
+  obj.skipOutside()
+}
+// skip entries of the underlying vector that are not part of this
+// (sliced) matrix
+func (obj *SparseInt16MatrixIterator) skipOutside() {
+  for obj.SparseInt16VectorIterator.Ok() {
+    i, j := obj.Index()
+    if i >= 0 && i < obj.m.rows && j >= 0 && j < obj.m.cols {
+      return
+    }
+    obj.SparseInt16VectorIterator.Next()
+  }
 }
 func (obj *SparseInt16MatrixIterator) Clone() *SparseInt16MatrixIterator {
   return &SparseInt16MatrixIterator{*obj.SparseInt16VectorIterator.Clone(), obj.m}
